@@ -4,5 +4,8 @@ CONSTANTS MaxDepth = 3
   StoreByCopy = FALSE
   TailKeepsSets = TRUE
   SplitContinues = TRUE
+  SkipEmpty = TRUE
+  SplitCachesExport = FALSE
+  SrcFRepass = TRUE
 INVARIANT SeenIsExpected
 CHECK_DEADLOCK FALSE
